@@ -37,7 +37,7 @@ var hdecReal = []string{"pkg/decode (decode, recover, gap filling, post processi
 var plans = map[string]Plan{
 	"C06": {
 		Stages: []Stage{
-			{Harness: "hdec", Config: "default", Quick: 60000, Thorough: 2000000, QuickSec: 75, ThoroughSec: 2400, MemGB: 4, HeapGB: 1},
+			{Harness: "hdec", Config: "default", Quick: 60000, Thorough: 2000000, QuickSec: 75, ThoroughSec: 1500, MemGB: 4, HeapGB: 1},
 			// process level: the whole CLI on corrupted files and a failing disk
 			{Harness: "hcrash", Config: "default", Quick: 1500, Thorough: 60000, QuickSec: 45, ThoroughSec: 900, MemGB: 6, HeapGB: 3},
 		},
@@ -53,7 +53,7 @@ var plans = map[string]Plan{
 	},
 	"C03": {
 		Stages: []Stage{
-			{Harness: "hdec", Config: "default", Quick: 60000, Thorough: 2000000, QuickSec: 75, ThoroughSec: 2400, MemGB: 4, HeapGB: 1},
+			{Harness: "hdec", Config: "default", Quick: 60000, Thorough: 2000000, QuickSec: 75, ThoroughSec: 1500, MemGB: 4, HeapGB: 1},
 		},
 		Rule: "one run = one decode of a corpus sample (<= 16 KiB, thorough: sometimes <= 256 KiB) with its natural format, the probe or a foreign format, force on/off, through decode.Decode over IOBitReadSeeker(simulated disk) so that every field read is a disk call, under one tape-chosen storage fault: abort at the k-th disk call of the fault-free decode (transient EIO, persistent EIO, early EOF, cancel), truncation at a byte offset (consecutive run indices sweep small files densely), bit-rot of 1..3 bits, overwrite with a boundary byte (offsets biased to the first 64 bytes and to offsets the fault-free decode read with widths 1..8), a zeroed / duplicated / dropped block of 1..512 bytes; the fault-free decode of each pair is checked too; oracle C03 on every returned tree, complete or partial: ranges non-negative and (unless synthetic) inside the value's buffer, a compound's range (inner range for a buffer root) spans every non-synthetic non-root child, struct fields have unique names, non-decreasing start, index -1 and are found by name, array elements are numbered by position, child.parent is the parent, the root's range starts at the decode range; distinct = (pair, fault) fingerprint; every faulted decode is non-trivial",
 		Real: hdecReal,
@@ -66,7 +66,7 @@ var plans = map[string]Plan{
 	},
 	"C04": {
 		Stages: []Stage{
-			{Harness: "hdec", Config: "default", Quick: 60000, Thorough: 2000000, QuickSec: 75, ThoroughSec: 2400, MemGB: 4, HeapGB: 1},
+			{Harness: "hdec", Config: "default", Quick: 60000, Thorough: 2000000, QuickSec: 75, ThoroughSec: 1500, MemGB: 4, HeapGB: 1},
 		},
 		Rule: "one run = one decode of a corpus sample (<= 16 KiB, thorough: sometimes <= 256 KiB) with its natural format, the probe or a foreign format, force on/off, through decode.Decode over IOBitReadSeeker(simulated disk) so that every field read is a disk call, under one tape-chosen storage fault: abort at the k-th disk call of the fault-free decode (transient EIO, persistent EIO, early EOF, cancel), truncation at a byte offset (consecutive run indices sweep small files densely), bit-rot of 1..3 bits, overwrite with a boundary byte (offsets biased to the first 64 bytes and to offsets the fault-free decode read with widths 1..8), a zeroed / duplicated / dropped block of 1..512 bytes; the fault-free decode of each pair is checked too; oracle C04 for the top-level buffer and every nested buffer root made by a format decode: a bitmap of the leaf ranges of that root covers [0, length) completely, no gap leaf intersects a field leaf, and (top level) the bits of every gap equal the stored bits of its range; a failed decode that returns a tree must show the undecoded tail as gaps; distinct = (pair, fault) fingerprint; every faulted decode is non-trivial",
 		Real: hdecReal,
